@@ -133,7 +133,7 @@ def gc_vs_txn(sp, rig="L", scenario="commit", K=2, max_age=8000):
 
 def obligations(tier):
     obs = []
-    T = 400 if tier == "quick" else 3000
+    T = 400 if tier == "quick" else 1800
     if tier == "quick":
         cfgs = [("L", "commit", 1), ("L", "append", 1), ("L", "rollback", 2), ("S", "commit", 1), ("L", "retry", 1)]
     else:
@@ -141,6 +141,7 @@ def obligations(tier):
                 ("L", "commit", 3)]
     for rig, sc, K in cfgs:
         obs.append(Ob(f"race.{rig}.{sc}.K{K}", "vf.props.c06:gc_vs_txn", {"rig": rig, "scenario": sc, "K": K, "_must_reach": ["ran"]}, timeout=T,
+                      allow_inconclusive=(tier == "thorough" and K >= 3 and sc == "commit"),
                       bounds=f"rig {rig}, one collector vs a transaction ({sc}{' + a second committer forcing a retry' if sc == 'retry' else ''}), K={K}, "
                              f"grace 0..4 s and data-file age 0..8 s symbolic", weight=K * 3))
     return obs
